@@ -256,6 +256,8 @@ def suites(tier, seed):
                   2 if tier == "quick" else 3, "every 6th combination" if tier == "quick" else "ALL for the open channel, every 5th for the others")),
         Suite("exception-text", "machine", lambda: gen_exc_text(tier, seed), monitor=monitor, nontrivial=lambda c, il: True, canon=mg.canon_nondet, candidate_ok=mg.candidate_ok,
               rule="client-only methods sent by the server whose string fields are 'a'*pad + c*k for c of 1/2/3/4 UTF-8 bytes, pad 0..3 (0..7 thorough), k chosen so the Debug text of the frame crosses byte 255 at every alignment inside a character: the exception's Connection.Close must be well-formed, <= 255 bytes of text, cut on a character boundary"),
+        Suite("large-contents", "machine", lambda: [c for c in __import__("props.c03", fromlist=["x"]).gen_large(tier, seed) if int(c.cid.split("_")[0][1:]) >= 2 ** 20 - 1], monitor=monitor, nontrivial=lambda c, il: True, canon=mg.canon_nondet, shards=4, shrink=False,
+              rule="contents around and above the 1 MiB pre-allocation cap (2^20-1 ... 2^20+10; thorough up to 3 MiB), the first body frame exactly / about 1 MiB: a content is complete only when the announced number of bytes has arrived; nothing is delivered early or truncated"),
         Suite("announced-sizes", "machine", lambda: gen_sizes(tier, seed), monitor=monitor, nontrivial=nontrivial, exhaustive=True,
               rule="deliver/return/get with announced body sizes {0,1,2,7,2^16,2^31-1,2^31,2^32,2^40,7e10,2^63-1,2^63,2^64-1} followed by a 3-byte body frame, one case per size so that a process abort is attributed"),
     ]
